@@ -473,11 +473,17 @@ func TestTwistedEdwards(t *testing.T) {
 		names = append(names, teNames...)
 	}
 	g := genTE(names)
-	checkSerial(rec, t, "te", ev.N(150, 8000), func(rt *rapid.T) {
+	checkSerial(rec, t, "te", ev.N(150, 5000), func(rt *rapid.T) {
 		c := g.Draw(rt, "case")
 		if sig := excludedTE(c.Curve, c.Op, c.Scalars); sig != "" {
 			rec.Discarded("te:excluded shape of open finding " + sig)
 			return
+		}
+		if c.Op == "ScalarMul" {
+			if sig := excludedTEPoint(c.Curve, c.Op, c.Points[0], c.Scalars); sig != "" {
+				rec.Discarded("te:excluded shape of open finding " + sig)
+				return
+			}
 		}
 		rec.Report(rt, "te", c, runTE(c))
 	})
@@ -734,7 +740,7 @@ func TestEdDSA(t *testing.T) {
 		names = append(names, teNames...)
 	}
 	g := genEdDSA(names)
-	checkSerial(rec, t, "eddsa", ev.N(60, 4000), func(rt *rapid.T) {
+	checkSerial(rec, t, "eddsa", ev.N(60, 1500), func(rt *rapid.T) {
 		c := g.Draw(rt, "case")
 		rec.Report(rt, "eddsa", c, runEdDSA(c))
 	})
@@ -893,9 +899,13 @@ func TestAdversaryTwistedEdwards(t *testing.T) {
 		c.K = rapid.IntRange(0, 3).Draw(t, "k")
 		return c
 	})
-	checkSerial(rec, t, "te-adv", ev.N(120, 6000), func(rt *rapid.T) {
+	checkSerial(rec, t, "te-adv", ev.N(120, 2500), func(rt *rapid.T) {
 		c := g.Draw(rt, "case")
 		if sig := excludedTE(c.Curve, "ScalarMul", []string{c.S}); sig != "" {
+			rec.Discarded("te-adv:excluded shape of open finding " + sig)
+			return
+		}
+		if sig := excludedTEPoint(c.Curve, "ScalarMul", c.P, []string{c.S}); sig != "" {
 			rec.Discarded("te-adv:excluded shape of open finding " + sig)
 			return
 		}
